@@ -443,6 +443,9 @@ class Seqs:
                     roles.append(None)
             return self._merge(roles)
         if isinstance(e, ast.IfExp):
+            taken = eval3(fa, e.test, at, self.assume) if getattr(self, "assume", None) is not None else None
+            if taken is not None:
+                return self.role(e.body if taken else e.orelse, at, _seen)
             return self._merge([self.role(e.body, at, _seen), self.role(e.orelse, at, _seen)])
         if isinstance(e, ast.BinOp) and isinstance(e.op, ast.Mult):
             for (l, r) in ((e.left, e.right), (e.right, e.left)):
@@ -1549,6 +1552,12 @@ def under(fa, atom):
         nd = fa.cfg.node(s)
         if l == "exc":
             return isinstance(nd.ast, ast.Raise)
+        if l == "T" and nd.kind == "for" and isinstance(nd.ast.iter, ast.IfExp):
+            # `for x in (xs if flag else ())`: with the empty alternative selected the body does not run
+            taken = eval3(fa, nd.ast.iter.test, s, atom)
+            arm = None if taken is None else (nd.ast.iter.body if taken else nd.ast.iter.orelse)
+            if isinstance(arm, (ast.Tuple, ast.List)) and not arm.elts:
+                return False
         if l in ("T", "F") and nd.kind == "test" and nd.ast is not None:
             v = eval3(fa, nd.ast, s, atom)
             return v is None or v == (l == "T")
@@ -1668,8 +1677,9 @@ class FirstFailure:
                 return out
         return [(e, at, gates)]
 
-    def _failing_elements(self, g, at):
-        """Is the comprehension / generator `g` "the failing elements of the sequence, in order"?"""
+    def _failing(self, g, at, what):
+        """Is the comprehension / generator `g` "the failing elements of the sequence, in order" (what='elem') / "the
+        positions of the failing elements, ascending" (what='pos')?"""
         if not isinstance(g, (ast.GeneratorExp, ast.ListComp)) or len(g.generators) != 1:
             return False
         gen = g.generators[0]
@@ -1677,27 +1687,109 @@ class FirstFailure:
             return False
         p = pos_iter(self.seqs, gen.target, gen.iter, at)
         x = failure_test(gen.ifs[0])
-        return p is not None and x is not None and p.elem_role(self.seqs, x, at) == self.role and p.elem_role(self.seqs, g.elt, at) == self.role
+        if p is None or x is None or p.elem_role(self.seqs, x, at) != self.role:
+            return False
+        if what == "pos":
+            return p.pos is not None and isinstance(g.elt, ast.Name) and g.elt.id == p.pos
+        return p.elem_role(self.seqs, g.elt, at) == self.role
 
     def _one_origin(self, e, at):
         lv = origins(self.fa, e, at)
         return lv[0] if len(lv) == 1 else (None, None)
 
+    @staticmethod
+    def _nonempty(lst):
+        """Presence test read off a list: `lst`, `len(lst)`, `len(lst) > 0 / != 0 / == 0` say whether it has elements."""
+        want = A.norm(lst)
+
+        def pred(t, n):
+            inner, sign = t, True
+            if isinstance(t, ast.Compare) and len(t.ops) == 1 and isinstance(t.comparators[0], ast.Constant) and t.comparators[0].value == 0 \
+                    and isinstance(t.ops[0], (ast.Gt, ast.NotEq, ast.Eq)):
+                inner, sign = t.left, not isinstance(t.ops[0], ast.Eq)
+                if not (isinstance(inner, ast.Call) and isinstance(inner.func, ast.Name) and inner.func.id == "len"):
+                    return None
+            if isinstance(inner, ast.Call) and isinstance(inner.func, ast.Name) and inner.func.id == "len" and len(inner.args) == 1 and not inner.keywords:
+                inner = inner.args[0]
+            if isinstance(inner, ast.Name) and A.norm(inner) == want:
+                return sign
+            return None
+        return pred
+
+    def _cursor(self, leaf, at):
+        """`xs[i]` after `i = 0; while i < len(xs) and not isinstance(xs[i], Exception): i += 1` — the linear search for
+        the first failing element: (loop test nodes, presence test "i is still inside the list")."""
+        fa = self.fa
+        if not (isinstance(leaf, ast.Subscript) and isinstance(leaf.slice, ast.Name) and self.seqs.role(leaf.value, at) == self.role):
+            return None
+        i = leaf.slice.id
+        ds = fa.df.reaching(at, i)
+        steps = [d for d in ds if d.kind == "aug"]
+        inits = [d for d in ds if d.kind == "assign"]
+        if len(steps) != 1 or len(inits) != 1 or len(ds) != 2 or len(all_defs(fa, i)) != 2 or i in fa.df.params:
+            return None
+        st = steps[0].stmt
+        if not (isinstance(inits[0].value, ast.Constant) and type(inits[0].value.value) is int and inits[0].value.value == 0
+                and isinstance(st.op, ast.Add) and isinstance(st.value, ast.Constant) and st.value.value == 1):
+            return None
+        w = fa.enclosing(st, (ast.While, ast.For))
+        if not isinstance(w, ast.While) or w.orelse or len(w.body) != 1 or w.body[0] is not st or fa.enclosing(w, (ast.While, ast.For)) is not None \
+                or fa.inside(fa.cfg.node(at).ast, w) or fa.inside(inits[0].stmt, w):
+            return None
+        wn = fa.nodes(w)
+        conj = w.test.values if isinstance(w.test, ast.BoolOp) and isinstance(w.test.op, ast.And) else [w.test]
+
+        def length_of(e, n):
+            e, n = bound_value(fa, e, n)
+            return isinstance(e, ast.Call) and isinstance(e.func, ast.Name) and e.func.id == "len" and len(e.args) == 1 and self.seqs.role(e.args[0], n) == self.role
+
+        def inside_list(t, n):
+            """`i < len(xs)` (True) / `i >= len(xs)`, `i == len(xs)` (False)"""
+            if isinstance(t, ast.Compare) and len(t.ops) == 1 and isinstance(t.left, ast.Name) and t.left.id == i and length_of(t.comparators[0], n):
+                if isinstance(t.ops[0], (ast.Lt, ast.NotEq)):
+                    return True
+                if isinstance(t.ops[0], (ast.GtE, ast.Eq)):
+                    return False
+            return None
+        if len(conj) != 2 or not wn:
+            return None
+        bound, going = conj
+        x = failure_test(going.operand) if isinstance(going, ast.UnaryOp) and isinstance(going.op, ast.Not) else None
+        if inside_list(bound, wn[0]) is not True or not (isinstance(x, ast.Subscript) and isinstance(x.slice, ast.Name) and x.slice.id == i
+                                                          and self.seqs.role(x.value, wn[0]) == self.role):
+            return None
+        return wn, inside_list
+
     def hit_leaf(self, leaf, at):
-        """For a leaf expression that denotes the first failing element or None: (entry nodes, commit nodes, list
-        expression or None) — every evaluation passes an entry node, the choice is made at a commit node, and when the
-        value is the head of the list of failing elements that list is the third component.  None: not such a leaf."""
+        """For a leaf expression that denotes the first failing element (or None when there is none): (entry nodes,
+        commit nodes, presence test or None) — every evaluation passes an entry node, the choice is made at a commit
+        node, and when the leaf can only be evaluated if a failing element exists (the head of the list of failing
+        elements, the slot a search cursor stopped at) the third component reads tests for "there is one".
+        None: not such a leaf."""
         fa = self.fa
         if isinstance(leaf, ast.Call) and isinstance(leaf.func, ast.Name) and leaf.func.id == "next" and len(leaf.args) == 2 \
                 and not leaf.keywords and A.is_none(leaf.args[1]):
             g, gat = self._one_origin(leaf.args[0], at)
-            if g is not None and isinstance(g, ast.GeneratorExp) and self._failing_elements(g, gat):
+            if g is not None and isinstance(g, ast.GeneratorExp) and self._failing(g, gat, "elem"):
                 return [at], [at], None
             return None
         if isinstance(leaf, ast.Subscript) and isinstance(leaf.slice, ast.Constant) and type(leaf.slice.value) is int and leaf.slice.value == 0:
             g, gat = self._one_origin(leaf.value, at)
-            if g is not None and isinstance(g, ast.ListComp) and self._failing_elements(g, gat) and not self._edited(leaf.value):
-                return [at], [at], leaf.value
+            if g is not None and isinstance(g, ast.ListComp) and self._failing(g, gat, "elem") and not self._edited(leaf.value):
+                return [at], [at], self._nonempty(leaf.value)
+            return None
+        if isinstance(leaf, ast.Subscript) and isinstance(leaf.slice, ast.Subscript) and isinstance(leaf.slice.slice, ast.Constant) \
+                and type(leaf.slice.slice.value) is int and leaf.slice.slice.value == 0 and self.seqs.role(leaf.value, at) == self.role:
+            # xs[positions[0]] for the ascending list of failing positions
+            pl = leaf.slice.value
+            g, gat = self._one_origin(pl, at)
+            if g is not None and isinstance(g, ast.ListComp) and self._failing(g, gat, "pos") and not self._edited(pl):
+                return [at], [at], self._nonempty(pl)
+            return None
+        if isinstance(leaf, ast.Subscript) and isinstance(leaf.slice, ast.Name):
+            c = self._cursor(leaf, at)
+            if c is not None:
+                return list(c[0]), list(c[0]), c[1]
             return None
         if isinstance(leaf, ast.Call):
             r = resolve_local_callee(self.ck, fa, leaf)
@@ -1728,7 +1820,7 @@ class FirstFailure:
 
     def value(self, e, at):
         """If `e` holds the first failing element, or None when there is none: the list of its non-None cases as
-        (entry nodes, commit nodes, gates, list expression); None when `e` may hold anything else."""
+        (entry nodes, commit nodes, gates, presence test); None when `e` may hold anything else."""
         fa = self.fa
         out = []
         kept = {}
@@ -1738,41 +1830,38 @@ class FirstFailure:
             h = self.hit_leaf(leaf, n)
             if h is None:
                 return None
-            entry, commit, lst = h
+            entry, commit, pres = h
             st = fa.cfg.node(n).ast
             home = self.home(st) if (isinstance(leaf, ast.Name) and st is not None) else None
             if home is not None:
                 kept.setdefault(id(home[0]), (home, []))[1].append(n)
-            out.append((entry, commit, gates, lst))
+            out.append((entry, commit, gates, pres))
         for (home, acts) in kept.values():
             if not self.scan_complete(home[0], home[1], acts):
                 return None
         return out or None
 
-
-    def present(self, val, e, at, lists, base):
-        """Atom: every test that says "the value `e` (as read at node `at`) is not None / is truthy" or "the list of
-        failing elements (one of `lists`) is non-empty" has the value `val`; other tests as `base` says."""
+    def present(self, val, e, at, preds, base):
+        """Atom: every test that says "the value `e` (as read at node `at`) is not None / is truthy", or that one of
+        the presence tests `preds` reads as "there is a failing element", has the value `val`; other tests as `base`
+        says."""
         fa = self.fa
         want = fa.xnorm(e, at)
 
         def f(t, n):
             nt = none_test(t)
             x, v = (nt[0], (not nt[1]) == val) if nt is not None else (t, val)
-            if isinstance(x, (ast.Name, ast.Attribute, ast.Subscript)) and fa.xnorm(x, n) == want \
+            if isinstance(x, ast.NamedExpr) and isinstance(x.target, ast.Name):
+                # `(v := E) is not None`: the test binds what is raised
+                if isinstance(e, ast.Name) and e.id == x.target.id and [d.node for d in fa.df.reaching(at, e.id)] == [n]:
+                    return v
+            elif isinstance(x, (ast.Name, ast.Attribute, ast.Subscript)) and fa.xnorm(x, n) == want \
                     and (not isinstance(x, ast.Name) or n == at or fa.df.same_defs(x.id, n, at)):
                 return v
-            if nt is None and lists:
-                inner, sign = t, True
-                if isinstance(t, ast.Compare) and len(t.ops) == 1 and isinstance(t.comparators[0], ast.Constant) and t.comparators[0].value == 0 \
-                        and isinstance(t.ops[0], (ast.Gt, ast.NotEq, ast.Eq)):
-                    inner, sign = t.left, not isinstance(t.ops[0], ast.Eq)
-                    if not (isinstance(inner, ast.Call) and isinstance(inner.func, ast.Name) and inner.func.id == "len"):
-                        return base(t, n)
-                if isinstance(inner, ast.Call) and isinstance(inner.func, ast.Name) and inner.func.id == "len" and len(inner.args) == 1 and not inner.keywords:
-                    inner = inner.args[0]
-                if isinstance(inner, ast.Name) and any(A.norm(inner) == A.norm(l) for l in lists):
-                    return val == sign
+            for pr in preds:
+                got = pr(t, n)
+                if got is not None:
+                    return got == val
             return base(t, n)
         return f
 
@@ -1809,11 +1898,11 @@ def returns_first_failure(ck, fi, pname):
             cs = ff.value(r.value, at)
             if cs is None:
                 return False
-            lists = [l for (_e, _c, _g, l) in cs if l is not None]
-            for (entry, _commit, gates, lst) in cs:
-                # the case is selected when there is a failing element, and (the head of a list) only then
-                on = all(eval3(g, t, n, ff.present(True, r.value, at, lists, NOTHING)) is arm for (t, n, arm) in gates)
-                off = lst is None or any(eval3(g, t, n, ff.present(False, r.value, at, lists, NOTHING)) is (not arm) for (t, n, arm) in gates)
+            preds = [l for (_e, _c, _g, l) in cs if l is not None]
+            for (entry, _commit, gates, pres) in cs:
+                # the case is selected when there is a failing element, and (a leaf that needs one to exist) only then
+                on = all(eval3(g, t, n, ff.present(True, r.value, at, preds, NOTHING)) is arm for (t, n, arm) in gates)
+                off = pres is None or any(eval3(g, t, n, ff.present(False, r.value, at, preds, NOTHING)) is (not arm) for (t, n, arm) in gates)
                 # and it is computed on every path to this return
                 ok = ok and on and off and all(g.cfg.must_pass(entry, i) for i in g.nodes(r))
         for (h, acts) in in_loop.values():
@@ -1848,7 +1937,9 @@ def _first_exception_ok(ck, cb, run):
     def answer_role(seqs, e, at):
         return "answer" if e is run else None
 
-    ff = FirstFailure(ck, cb, Seqs(cb, None, answer_role), "answer", flag(True))
+    seqs = Seqs(cb, None, answer_role)
+    seqs.assume = flag(True)
+    ff = FirstFailure(ck, cb, seqs, "answer", flag(True))
     start = cb.nodes(run)
     after = cb.cfg.reach(start, include_start=False)
     raises = []
@@ -1874,7 +1965,7 @@ def _first_exception_ok(ck, cb, run):
             return False
         lists = [l for (_e, _c, _g, l) in cs if l is not None]
         there = ff.present(True, r.exc, at, lists, flag(True))
-        for (entry, commit, gates, lst) in cs:
+        for (entry, commit, gates, _pres) in cs:
             # flag not set: the raise is not reached, or the element is not chosen (or the choice is gated by the flag)
             off = not (set(cb.nodes(r)) & after_off) or not (set(commit) & after_off) or any(eval3(cb, t, n, flag(False)) is (not arm) for (t, n, arm) in gates)
             # flag set and a failing element present: the gates select this case
